@@ -140,6 +140,22 @@ def cases():
     add("var:in-concurrent", "reject", fn(CON, "c1", "nonlocal v", "v @= self.d"))
     add("var:read-in-concurrent", "reject", fn(SEQ, "p1", "nonlocal v", "v @= self.d"), fn(CON, "c2", "nonlocal s", "s <<= v"))
     add("temp:defined-ctx1-used-ctx2", "reject", ["box = []"], fn(SEQ, "p1", "nonlocal s", "t = self.d + 1", "box.append(t)", "s <<= t"), fn(SEQ, "p2", "nonlocal s2", "s2 <<= box[0]"))
+    # --- contexts built with the core API (no std wrapper: no implicit reset_pushed() default write) --------------------
+    RAW = "@cohdl.sequential_context"
+    RAWC = "@cohdl.concurrent_context"
+    E1 = "if cohdl.rising_edge(self.clk):"
+    add("raw:assign-only", "accept", fn(RAW, "p1", "nonlocal s", E1, "    s <<= self.d"))
+    add("raw:push-only", "accept", fn(RAW, "p1", E1, "    if self.a:", "        self.o2 ^= self.d"))
+    add("raw:conc-only", "accept", fn(RAWC, "c1", "nonlocal s", "s <<= self.d"))
+    add("raw:assign+raw:assign", "reject", fn(RAW, "p1", "nonlocal s", E1, "    s <<= self.d"), fn(RAW, "p2", "nonlocal s", E1, "    s <<= 1"))
+    add("raw:assign+seq", "reject", fn(RAW, "p1", "nonlocal s", E1, "    s <<= self.d"), fn(SEQ, "p2", "nonlocal s", "s <<= 1"))
+    add("raw:conc+conc", "reject", fn(RAWC, "c1", "nonlocal s", "s <<= self.d"), fn(CON, "c2", "nonlocal s", "s <<= 1"))
+    add("raw:push+seq", "reject", fn(RAW, "p1", E1, "    if self.a:", "        self.o2 ^= self.d"), fn(SEQ, "p2", "if self.b:", "    self.o2 <<= 1"))
+    add("raw:push+conc", "reject", fn(RAW, "p1", E1, "    if self.a:", "        self.o2 ^= self.d"), fn(CON, "c2", "self.o2 <<= 1"))
+    add("raw:push+raw:push", "reject", fn(RAW, "p1", E1, "    if self.a:", "        self.o2 ^= self.d"), fn(RAW, "p2", E1, "    if self.b:", "        self.o2 ^= 1"))
+    add("raw:push+raw:assign", "reject", fn(RAW, "p1", E1, "    if self.a:", "        self.o2 ^= self.d"), fn(RAW, "p2", E1, "    self.o2 <<= 1"))
+    add("raw:push-slice+seq-other-slice", "reject", fn(RAW, "p1", E1, "    sb[1:0] ^= self.d[1:0]"), fn(SEQ, "p2", "sb[3:2] <<= self.d[3:2]"), fn(CON, "c3", "self.o2 <<= sb.unsigned"))
+    add("raw:push-local-signal+conc", "reject", fn(RAW, "p1", "nonlocal s", E1, "    s ^= self.d"), fn(CON, "c2", "nonlocal s", "s <<= 1"))
     # --- reset interplay ----------------------------------------------------------------------------------
     add("always-target-with-reset", "single-driver", fn(SEQR, "p1", "with cohdl.always:", "    s.next = self.d", "self.o2 <<= s"))
     add("seq-with-reset", "accept", fn(SEQR, "p1", "nonlocal s", "s <<= self.d", "self.o2 <<= s"))
